@@ -192,3 +192,19 @@ Definition o_randint a b ds : outcome (list tokv) := let* v := runM (rand_int a 
 Definition o_randnumber n ds : outcome (list tokv) := let* v := runM (random_number n) ds in Ok [TI v].
 Definition o_randprime n ds : outcome (list tokv) := let* v := runM (random_prime n) ds in Ok [TI v].
 Definition o_randqr n ds : outcome (list tokv) := let* v := runM (random_qr n) ds in Ok [TI v].
+
+(* arithmetic primitives of the model, one by one (compared with rug/GMP and re-evaluated inside Coq) *)
+Definition o_prim (k : N) (a : list Z) : outcome (list tokv) :=
+  match k, a with
+  | 0%N, [b; e; n] => let* r := pow_mod b e n in Ok [TI r]
+  | 1%N, [x; m] => let* r := try_opt (invert x m) in Ok [TI r]
+  | 2%N, [x; y; m] => let* r := divm x y m in Ok [TI r]
+  | 3%N, [x; n] => if n =? 0 then Panic else Ok [TI (Z.rem x n)]
+  | 4%N, [x] => Ok [TI (hash_int (to_string x))]
+  | 5%N, [x] => Ok [TI (sig_bits x)]
+  | 6%N, [x] => let* r := zsqrt x in Ok [TI r]
+  | 7%N, [x; y] => Ok [TI (Z.gcd x y)]
+  | 8%N, [x] => Ok [TI (b2z (probably_prime x))]
+  | 9%N, [x; y] => if y =? 0 then Panic else Ok [TI (x / y)]
+  | _, _ => Err
+  end.
